@@ -45,21 +45,22 @@ type phaseStep struct {
 }
 
 type phaseSpec struct {
-	Dir        string      `json:"dir"`  // store data directory
-	Work       string      `json:"work"` // directory with bulk files, event log and output
-	Opt        phaseOpt    `json:"opt"`
-	Known      []int       `json:"known"` // bulks the verify step knows about
-	Steps      []phaseStep `json:"steps"`
-	CrashPoint string      `json:"crash_point,omitempty"`
-	CrashAt    int64       `json:"crash_at,omitempty"`
-	FaultPoint string      `json:"fault_point,omitempty"`
-	FaultAt    int64       `json:"fault_at,omitempty"`
-	HoldPoint  string      `json:"hold_point,omitempty"`
-	HoldAt     int64       `json:"hold_at,omitempty"`
-	DelaySeed  uint64      `json:"delay_seed,omitempty"`
-	LogPoints  bool        `json:"log_points,omitempty"`
-	Out        string      `json:"out"`
-	Events     string      `json:"events"`
+	Dir        string         `json:"dir"`  // store data directory
+	Work       string         `json:"work"` // directory with bulk files, event log and output
+	Opt        phaseOpt       `json:"opt"`
+	Known      []int          `json:"known"` // bulks the verify step knows about
+	Steps      []phaseStep    `json:"steps"`
+	CrashPoint string         `json:"crash_point,omitempty"`
+	CrashAt    int64          `json:"crash_at,omitempty"`
+	FaultPoint string         `json:"fault_point,omitempty"`
+	FaultAt    int64          `json:"fault_at,omitempty"`
+	SlowPoints map[string]int `json:"slow_points,omitempty"` // hook point -> upper bound (ms) of a seeded sleep at every hit
+	HoldPoint  string         `json:"hold_point,omitempty"`
+	HoldAt     int64          `json:"hold_at,omitempty"`
+	DelaySeed  uint64         `json:"delay_seed,omitempty"`
+	LogPoints  bool           `json:"log_points,omitempty"`
+	Out        string         `json:"out"`
+	Events     string         `json:"events"`
 }
 
 type bulkVerify struct {
@@ -136,6 +137,19 @@ func storePhase(args []string) int {
 	}
 	if spec.DelaySeed != 0 {
 		ctl.Delay = map[string]bool{"*": true}
+	}
+	if len(spec.SlowPoints) > 0 {
+		if ctl.Delay == nil {
+			ctl.Delay = map[string]bool{}
+		}
+		ctl.Long = map[string]time.Duration{}
+		for p, ms := range spec.SlowPoints {
+			ctl.Delay[p] = true
+			ctl.Long[p] = time.Duration(ms) * time.Millisecond
+		}
+		if ctl.Seed == 0 {
+			ctl.Seed = 0x5eed
+		}
 	}
 	hk.Install(ctl)
 	ctl.Log("phase start")
